@@ -46,9 +46,20 @@ Definition row_or_none (o : option N) : N := match o with Some r => r | None => 
 (* ---------------------------------------------------------------------------------- the identity of a chunk *)
 (* chunkv.c_uid "stands for everything else" of a chunk: here it is the chunk's raw bytes themselves, packed
    injectively into one number (bit string of the bytes, least significant bit first, below a leading 1). *)
+Fixpoint push_bits (k : nat) (p : option positive) (acc : positive) : positive :=
+  match k with
+  | O => acc
+  | S k' =>
+      match p with
+      | None => xO (push_bits k' None acc)
+      | Some xH => xI (push_bits k' None acc)
+      | Some (xO q) => xO (push_bits k' (Some q) acc)
+      | Some (xI q) => xI (push_bits k' (Some q) acc)
+      end
+  end.
+(* the 8 low bits of b, least significant first, in front of acc *)
 Definition push_byte (b : N) (acc : positive) : positive :=
-  let f (i : N) (p : positive) := if N.testbit b i then xI p else xO p in
-  f 0 (f 1 (f 2 (f 3 (f 4 (f 5 (f 6 (f 7 acc))))))).
+  push_bits 8 (match b with N0 => None | Npos p => Some p end) acc.
 Definition uid_of_bytes (l : list N) : N := Npos (fold_right push_byte xH l).
 
 Fixpoint pbits (p : positive) : list bool :=
